@@ -6,7 +6,7 @@ import traceback
 
 from tools import lib
 
-TRANSLATORS = ["tr_classes"]
+TRANSLATORS = ["tr_classes", "tr_elements"]
 
 
 def regenerate_all():
